@@ -20,6 +20,18 @@ def cost_table():
     return "\n".join(rows)
 
 
+def thorough_table():
+    rows = ["| id | evaluations | distinct non-trivial | states / transitions / traces | known findings matched | violations | thorough wall (s) |", "|---|---|---|---|---|---|---|"]
+    for f in sorted(glob.glob(os.path.join(ROOT, "evidence", "thorough", "C*.json"))):
+        e = json.load(open(f))
+        c = e["coverage"]
+        st = f"{c.get('states', '-')} / {c.get('transitions', '-')} / {c.get('traces_validated_against_impl', '-')}" if "states" in c else "-"
+        kf = sum(c.get("known_findings_matched", {}).values())
+        v = e.get("violations")
+        rows.append(f"| {e['property_id']} | {c.get('evaluations')} | {c.get('distinct_nontrivial')} | {st} | {kf} | {len(v) if isinstance(v, list) else v} | {e['wall_s']:.0f} |")
+    return "\n".join(rows)
+
+
 def seed_table():
     rows = ["| seed | what was changed (one line) | needs, to manifest | caught by (quick tier, violations) | initially missed? |", "|---|---|---|---|---|"]
     notes = json.load(open(os.path.join(ROOT, "seeded", "strengthening.json"))) if os.path.exists(os.path.join(ROOT, "seeded", "strengthening.json")) else {}
@@ -38,7 +50,7 @@ def seed_table():
 def main():
     p = os.path.join(ROOT, "DESIGN.md")
     s = open(p).read()
-    for name, fn in (("COST", cost_table), ("SEEDS", seed_table)):
+    for name, fn in (("COST", cost_table), ("THOROUGH", thorough_table), ("SEEDS", seed_table)):
         b, e = f"<!-- BEGIN {name} -->", f"<!-- END {name} -->"
         if b in s and e in s:
             s = s[: s.index(b) + len(b)] + "\n" + fn() + "\n" + s[s.index(e) :]
